@@ -162,6 +162,7 @@ def compare(plan, cases, parsed, dbg):
             ofail.append((c, -1, "the process died (abort / double panic / hang): " + p["crash"]))
             continue
         wrapped = c.N > 0 and c.start + len(c.vals) > c.N
+        armed = c.fault != "none"
         for k, optext in enumerate(c.ops):
             rec = p["ops"].get(k, {})
             m, s, i = rec.get("m"), rec.get("s"), rec.get("i")
@@ -181,8 +182,9 @@ def compare(plan, cases, parsed, dbg):
             why = None
             if i.get("x", "-") != "-":
                 why = "implementation state/protocol check: " + i["x"]
-            elif plan.spec and s is not None and c.fault == "none":
+            elif plan.spec and s is not None and not armed:
                 why = spec_oracle(plan, c, optext, s, i)
+            armed = i.get("f", "none") != "none"
             extra = plan.oracle_op(c, k, optext, rec, p) if hasattr(plan, "oracle_op") else None
             why = why or extra
             if why:
@@ -197,13 +199,15 @@ def compare(plan, cases, parsed, dbg):
         if fin is not None and plan.ledger:
             if fin.get("bad", "-") != "-":
                 ofail.append((c, len(c.ops), "ownership violated: " + fin["bad"]))
-            elif plan.no_leak and c.fault == "none" and c.ops and c.ops[-1] == "new" and \
+            elif plan.no_leak and (c.fault == "none" or getattr(plan, "no_leak_faults", False)) and c.ops and c.ops[-1] == "new" and \
                     not any(o.endswith("forget") for o in c.ops):
                 if fin.get("live", "-") != "-" or fin.get("zlive", "0") != "0":
                     ofail.append((c, len(c.ops), "leaked elements: live=%s zlive=%s" % (fin.get("live"), fin.get("zlive"))))
         if hasattr(plan, "oracle_case"):
             for why in plan.oracle_case(c, p):
                 ofail.append((c, -1, why))
+    if hasattr(plan, "oracle_groups"):
+        ofail.extend(plan.oracle_groups(cases, parsed))
     return ofail, cfail, {"evaluations": evals, "distinct_nontrivial": len(nontrivial), "ops": dist}
 
 
@@ -260,7 +264,7 @@ def run_plan(plan, tier, seed, wd):
             results.append({"cfg": cfg, "build_failed": harness[-3000:]})
             continue
         dbg = E.CONFIGS[cfg][3]
-        cases = plan.gen(tier, seed)
+        cases = plan.gen_cfg(tier, seed, cfg) if hasattr(plan, "gen_cfg") else plan.gen(tier, seed)
         parsed = E.run_both(cases, dbg, driver, harness, os.path.join(wd, cfg))
         ofail, cfail, stats = compare(plan, cases, parsed, dbg)
         results.append({"cfg": cfg, "cases": cases, "ofail": ofail, "cfail": cfail, "stats": stats,
@@ -299,6 +303,9 @@ def main():
     proofs_ok, pinfo = audit_proofs(pid)
     results = run_plan(plan, tier, seed, wd)
 
+    if hasattr(plan, "cross_cfg"):
+        for (r, fail) in plan.cross_cfg(results):
+            r["ofail"].append(fail)
     total_evals = sum(r.get("stats", {}).get("evaluations", 0) for r in results)
     total_nt = sum(r.get("stats", {}).get("distinct_nontrivial", 0) for r in results)
     corr_ok = True
